@@ -175,10 +175,28 @@ pub fn extract(a: &dyn Array) -> Vec<V> {
     }
 }
 
+/// Does this array (or a nested child) denote more than `limit` slots? A run-end encoded array can
+/// legitimately do so with a few bytes; materialising its values is then not feasible.
+pub fn exceeds(a: &dyn Array, limit: usize) -> bool {
+    if a.len() > limit {
+        return true;
+    }
+    let d = a.to_data();
+    d.child_data().iter().any(|c| exceeds(&arrow_array::make_array(c.clone()), limit))
+}
+
 /// Row-major logical rows of a batch.
 pub fn rows_of(b: &RecordBatch) -> Vec<Vec<V>> {
     let cols: Vec<Vec<V>> = b.columns().iter().map(|c| extract(c.as_ref())).collect();
     (0..b.num_rows()).map(|i| cols.iter().map(|c| c[i].clone()).collect()).collect()
+}
+
+static PHYSICAL_NULLABILITY: std::sync::atomic::AtomicBool = std::sync::atomic::AtomicBool::new(false);
+
+/// For readers of untrusted bytes (C08): judge "non-nullable column contains nulls" by the physical null count,
+/// as `RecordBatch::try_new` does, not by logical nulls (a null inside a dictionary's values, a null run).
+pub fn set_physical_nullability(on: bool) {
+    PHYSICAL_NULLABILITY.store(on, std::sync::atomic::Ordering::Relaxed);
 }
 
 /// Full validation of a batch handed back by a reader under faults.
@@ -194,7 +212,8 @@ pub fn validate_batch(b: &RecordBatch) -> Result<(), String> {
             return Err(format!("column {} has {} rows, batch has {}", f.name(), c.len(), b.num_rows()));
         }
         // (a union has no validity of its own and arrow-rs declares union fields non-nullable by convention)
-        if !f.is_nullable() && c.logical_null_count() > 0 && !matches!(f.data_type(), DataType::Null | DataType::Union(_, _)) {
+        let nulls = if PHYSICAL_NULLABILITY.load(std::sync::atomic::Ordering::Relaxed) { c.null_count() } else { c.logical_null_count() };
+        if !f.is_nullable() && nulls > 0 && !matches!(f.data_type(), DataType::Null | DataType::Union(_, _)) {
             return Err(format!("non-nullable column {} contains nulls", f.name()));
         }
         c.to_data().validate_full().map_err(|e| format!("column {} invalid: {e}", f.name()))?;
